@@ -319,6 +319,14 @@ def check_stmt(name, tier, acc, only=None):
       acc.count("stmt_rejected_by_dsl"); acc.add("stmt_rejected", f"{name}:{type(ex).__name__}")
       acc.count("stmt_designs")
       return 0
+  if name in stmtfam.MAY_REFUSE_SIM:
+    try:
+      build_cls(cls, "dynamic")
+    except TypeError as ex:
+      if "second name of" not in str(ex): raise
+      acc.count("stmt_refused_by_sim"); acc.add("stmt_rejected", f"{name}:sim:{type(ex).__name__}")
+      acc.count("stmt_designs")
+      return 0
   for si in range(len(seqs)):
     for group in ("dynamic", "heuristic", "mamba", "unroll"):
       if only and only != (group, si): continue
